@@ -36,6 +36,16 @@ spec fn cyclic(g: Map<Ustr, UstrMap<HumanSpan>>) -> bool {
     exists|c: Seq<Ustr>| closed_walk(g, c)
 }
 
+/// something depends on x
+spec fn has_pred(g: Map<Ustr, UstrMap<HumanSpan>>, x: Ustr) -> bool {
+    exists|u: Ustr| edge(g, u, x)
+}
+
+/// whatever the search added to the order was reached along an edge
+spec fn new_have_pred(g: Map<Ustr, UstrMap<HumanSpan>>, before: Seq<Ustr>, after: Seq<Ustr>) -> bool {
+    forall|x: Ustr| #[trigger] in_seq(after, x) ==> in_seq(before, x) || has_pred(g, x)
+}
+
 spec fn is_prefix_u(a: Seq<Ustr>, b: Seq<Ustr>) -> bool {
     a.len() <= b.len() && forall|i: int| 0 <= i < a.len() ==> b[i] == a[i]
 }
@@ -181,6 +191,115 @@ proof fn lemma_topo_acyclic(g: Map<Ustr, UstrMap<HumanSpan>>, res: Seq<Ustr>)
         let c = choose|c: Seq<Ustr>| closed_walk(g, c);
         assert(edge(g, c[0], c[1]));
         lemma_walk_decreases(g, res, c, c.len() - 1);
+    }
+}
+
+} // verus!
+verus! {
+
+/// the definition of u refers to the defined name v
+spec fn dep(arena: Seq<Expr>, defs: Map<Ustr, NontermDefn>, u: Ustr, v: Ustr) -> bool {
+    defs.contains_key(u) && defs.contains_key(v) && has_ref(arena, eid(defs[u].rhs_expr_id), v)
+}
+
+/// the definitions depend on each other cyclically: a closed walk along `dep`
+spec fn cyclic_defs(arena: Seq<Expr>, defs: Map<Ustr, NontermDefn>) -> bool {
+    exists|c: Seq<Ustr>| dep_walk(arena, defs, c)
+}
+
+spec fn dep_walk(arena: Seq<Expr>, defs: Map<Ustr, NontermDefn>, c: Seq<Ustr>) -> bool {
+    c.len() >= 2 && c[0] == c[c.len() - 1] && forall|i: int| 0 <= i < c.len() - 1 ==> dep(arena, defs, #[trigger] c[i], c[i + 1])
+}
+
+/// g is the dependency graph of the definitions
+spec fn graph_of(arena: Seq<Expr>, defs: Map<Ustr, NontermDefn>, g: Map<Ustr, UstrMap<HumanSpan>>) -> bool {
+    (forall|k: Ustr| g.contains_key(k) <==> defs.contains_key(k))
+    && (forall|u: Ustr, v: Ustr| #[trigger] edge(g, u, v) <==> dep(arena, defs, u, v))
+}
+
+proof fn lemma_cyclic_transfer(arena: Seq<Expr>, defs: Map<Ustr, NontermDefn>, g: Map<Ustr, UstrMap<HumanSpan>>)
+    requires graph_of(arena, defs, g)
+    ensures cyclic(g) == cyclic_defs(arena, defs)
+{
+    if cyclic(g) {
+        let c = choose|c: Seq<Ustr>| closed_walk(g, c);
+        assert forall|i: int| 0 <= i < c.len() - 1 implies dep(arena, defs, #[trigger] c[i], c[i + 1]) by {
+            assert(edge(g, c[i], c[i + 1]));
+        }
+        assert(dep_walk(arena, defs, c));
+    }
+    if cyclic_defs(arena, defs) {
+        let c = choose|c: Seq<Ustr>| dep_walk(arena, defs, c);
+        assert forall|i: int| 0 <= i < c.len() - 1 implies edge(g, #[trigger] c[i], c[i + 1]) by {
+            assert(dep(arena, defs, c[i], c[i + 1]));
+        }
+        assert(closed_walk(g, c));
+    }
+}
+
+/// the definitions' right-hand sides are expressions of the arena
+spec fn defs_in_arena(arena: Seq<Expr>, defs: Map<Ustr, NontermDefn>) -> bool {
+    earena_wf(arena)
+    && forall|k: Ustr| #[trigger] defs.contains_key(k) ==> 0 <= eid(defs[k].rhs_expr_id) < arena.len() && no_dd(arena, eid(defs[k].rhs_expr_id))
+}
+
+} // verus!
+verus! {
+
+/// the graph built from the first n definitions (in iteration order)
+spec fn graph_upto(arena: Seq<Expr>, defs: Map<Ustr, NontermDefn>, g: Map<Ustr, UstrMap<HumanSpan>>, es: Seq<(&Ustr, &NontermDefn)>, n: int) -> bool {
+    (forall|k: Ustr| #[trigger] g.contains_key(k) <==> among(es, n, k))
+    && (forall|u: Ustr, v: Ustr| #[trigger] edge(g, u, v) <==> g.contains_key(u) && dep(arena, defs, u, v))
+}
+
+spec fn among(es: Seq<(&Ustr, &NontermDefn)>, n: int, k: Ustr) -> bool {
+    exists|m: int| 0 <= m < n && m < es.len() && *(#[trigger] es[m]).0 == k
+}
+
+
+/// between two searches: nothing on the path, the order is consistent and holds exactly the
+/// visited vertices, all of them vertices of the graph
+spec fn search_state(g: Map<Ustr, UstrMap<HumanSpan>>, path: Seq<(Ustr, HumanSpan)>, visited: ISet<Ustr>, result: Seq<Ustr>) -> bool {
+    path.len() == 0 && topo(g, result)
+    && (forall|x: Ustr| visited.contains(x) <==> in_seq(result, x))
+    && (forall|x: Ustr| #[trigger] in_seq(result, x) ==> g.contains_key(x))
+}
+
+/// one root handled: search from v (path == [v]) finished, then v itself recorded
+proof fn lemma_root_done(arena: Seq<Expr>, defs: Map<Ustr, NontermDefn>, g: Map<Ustr, UstrMap<HumanSpan>>, v: Ustr, sp: HumanSpan,
+                         res1: Seq<Ustr>, res2: Seq<Ustr>, vis2: ISet<Ustr>)
+    requires
+        graph_of(arena, defs, g), g.contains_key(v),
+        topo(g, res2), is_prefix_u(res1, res2), new_have_pred(g, res1, res2),
+        forall|x: Ustr| #[trigger] in_seq(res1, x) ==> g.contains_key(x),
+        forall|x: Ustr| vis2.contains(x) <==> in_seq(res2, x) || on_path(seq![(v, sp)], 1, x),
+        forall|w: Ustr| edge(g, v, w) ==> in_seq(res2, w),
+    ensures
+        search_state(g, Seq::<(Ustr, HumanSpan)>::empty(), vis2, res2.push(v)),
+        forall|x: Ustr| in_seq(res2.push(v), x) ==> in_seq(res1, x) || has_pred(g, x) || x == v,
+        forall|x: Ustr| in_seq(res1, x) ==> in_seq(res2.push(v), x),
+{
+    lemma_topo_push(g, res2, v);
+    let p = seq![(v, sp)];
+    assert forall|x: Ustr| vis2.contains(x) <==> in_seq(res2.push(v), x) by {
+        lemma_in_seq_push(res2, v, x);
+        if on_path(p, 1, x) { let i = choose|i: int| 0 <= i < 1 && i < p.len() && (#[trigger] p[i]).0 == x; assert(p[0].0 == v); }
+        if x == v { assert(p[0].0 == x); assert(on_path(p, 1, x)); }
+    }
+    assert forall|x: Ustr| #[trigger] in_seq(res2.push(v), x) implies g.contains_key(x) && (in_seq(res1, x) || has_pred(g, x) || x == v) by {
+        lemma_in_seq_push(res2, v, x);
+        if x != v {
+            assert(in_seq(res2, x));
+            if !in_seq(res1, x) {
+                assert(has_pred(g, x));
+                let u = choose|u: Ustr| edge(g, u, x);
+                assert(dep(arena, defs, u, x));
+            }
+        }
+    }
+    assert forall|x: Ustr| in_seq(res1, x) implies in_seq(res2.push(v), x) by {
+        lemma_in_seq_prefix(res1, res2, x);
+        lemma_in_seq_push(res2, v, x);
     }
 }
 
